@@ -1,4 +1,4 @@
-"""C13 -- a long-lived project answers like a fresh one (clauses R13.1-R13.18)."""
+"""C13 -- a long-lived project answers like a fresh one (clauses R13.1-R13.19)."""
 from __future__ import annotations
 
 import ast
@@ -26,6 +26,7 @@ EXPLANATION += ' R13.14: a function that remembers its answer under a key reads,
 EXPLANATION += ' R13.16: in the auto-import observer every per-file index update is dominated by the Python-file test that generate_cache applies.'
 EXPLANATION += " R13.17: a table of an object whose entries are computed from another table of the object is dropped, entry by entry, wherever the source table changes."
 EXPLANATION += " R13.18: a concluded-data cell is put on the list the reset iterates whatever it holds (never conditional on the truth value of the data)."
+EXPLANATION += " R13.19: the module stored in the module cache is constructed from the resource alone (no source text handed to the constructor)."
 ASSUMPTIONS = ["required event sets per cache are a hand-confirmed table (sa/rules/c13.py REQUIRED) with reasons"]
 
 MUTATOR_KIND = {"write": "changed", "move": "moved", "remove": "removed", "create_file": "created",
@@ -76,6 +77,7 @@ def check(ctx, res) -> None:
     _structure_observer_rule(ctx, res)
     _index_only_modules_rule(ctx, res)
     _cell_registration_rule(ctx, res)
+    _cached_module_is_read_from_its_file_rule(ctx, res)
     from .common import derived_table_rule as _dt
 
     _dt(ctx, res, "R13.17", ('rope.base.pycore', 'rope.base.project', 'rope.base.resourceobserver', 'rope.base.pyobjects', 'rope.base.pynames', 'rope.contrib.autoimport.sqlite', 'rope.base.oi.objectinfo', 'rope.base.oi.memorydb'))
@@ -628,32 +630,7 @@ def _check_main(ctx, res) -> None:
 
     file_list_filter_rule(ctx, res, "R13.7")
 
-    # ---- R13.8 a failed module lookup is not remembered.  Concluded data is dropped when a KNOWN module changes; the
-    # creation of the missing module is not such an event, so a cached miss would outlive it (a fresh project resolves it)
-    n138 = 0
-    for f in sorted(idx.functions.values(), key=lambda f: f.qualname):
-        if f.unit.modname != "rope.base.pynames":
-            continue
-        handlers = [h for t in walk_local(f.node) if isinstance(t, ast.Try) for h in t.handlers
-                    if h.type is not None and "NotFound" in ast.unparse(h.type)]
-        if not handlers:
-            continue
-        cfg = CFG(f.node)
-        setters = [nd for nd in cfg.nodes if nd.kind in ("stmt", "test") and nd.ast is not None and any(
-            isinstance(c.func, ast.Attribute) and c.func.attr == "set" and is_self_attr(c.func.value) for c in calls_in(nd.ast))]
-        if not setters:
-            continue
-        for h in handlers:
-            n138 += 1
-            hn = cfg.node_of_stmt(h)
-            reach = cfg.reachable(hn.id) if hn is not None else set()
-            hit = [nd for nd in setters if nd.id in reach]
-            res.add("R13.8", f"{f.qualname.split('.', 3)[-1]}|no-negative-cache", not hit, f"{f.unit.rel}:{h.lineno}",
-                    "the not-found path stores nothing into the concluded-data cell (the lookup is retried next time)" if not hit else
-                    f"{f.name} stores a value into its cache cell (line {hit[0].lineno}) on the path through `except {ast.unparse(h.type)}`: the miss is "
-                    "remembered, and since creating the missing module invalidates nothing, the long-lived project keeps the import unresolved while a "
-                    "freshly opened project resolves it", function=f.qualname)
-    res.floor("R13.8", "module lookups with a not-found handler next to a cache cell", n138, 1)
+    no_negative_cache_rule(ctx, res, "R13.8")
 
     # ---- R13.9 object-lifetime caches (saveit/cacheit/cached) may only hold what depends on the object's own source.
     # Attribute tables that include names of OTHER modules (star imports, base classes, __init__ names) live in
@@ -918,3 +895,71 @@ def _cell_registration_rule(ctx, res) -> None:
                         "star import brings nothing, [] for a class without resolvable bases) is never registered, so forget_all_data() never clears it -- after the imported "
                         "module gains a class the warm project still answers 'nothing', a fresh one does not", function=m.qualname)
     res.floor("R13.18", "registrations of concluded-data cells", n, 1)
+
+
+def no_negative_cache_rule(ctx, res, rule: str) -> None:
+    """R13.8 (= R02.25): a failed module lookup is not remembered -- neither in the concluded-data cell nor in an attribute of the
+    name object.  Concluded data is dropped when a KNOWN module changes; the creation of the missing module is not such an event
+    for a cell that holds a miss, and a plain attribute (`self._not_found = True`) is dropped by nothing at all: the import stays
+    unresolved for as long as the importing module is cached, while a freshly opened project resolves it."""
+    idx = ctx.idx
+    # ---- R13.8 a failed module lookup is not remembered.  Concluded data is dropped when a KNOWN module changes; the
+    # creation of the missing module is not such an event, so a cached miss would outlive it (a fresh project resolves it)
+    n138 = 0
+    for f in sorted(idx.functions.values(), key=lambda f: f.qualname):
+        if f.unit.modname != "rope.base.pynames":
+            continue
+        handlers = [h for t in walk_local(f.node) if isinstance(t, ast.Try) for h in t.handlers
+                    if h.type is not None and "NotFound" in ast.unparse(h.type)]
+        if not handlers:
+            continue
+        cfg = CFG(f.node)
+        setters = [nd for nd in cfg.nodes if nd.kind in ("stmt", "test") and nd.ast is not None and any(
+            isinstance(c.func, ast.Attribute) and c.func.attr == "set" and is_self_attr(c.func.value) for c in calls_in(nd.ast))]
+        if not setters:
+            continue
+        # ... and stores into attributes of the object itself (a flag "not found" kept next to the cell)
+        setters += [nd for nd in cfg.nodes if nd.kind == "stmt" and isinstance(nd.ast, (ast.Assign, ast.AugAssign, ast.AnnAssign)) and any(
+            is_self_attr(t) for t in (nd.ast.targets if isinstance(nd.ast, ast.Assign) else [nd.ast.target]))]
+        for h in handlers:
+            n138 += 1
+            hn = cfg.node_of_stmt(h)
+            reach = cfg.reachable(hn.id) if hn is not None else set()
+            hit = [nd for nd in setters if nd.id in reach]
+            res.add(rule, f"{f.qualname.split('.', 3)[-1]}|no-negative-cache", not hit, f"{f.unit.rel}:{h.lineno}",
+                    "the not-found path stores nothing into the concluded-data cell (the lookup is retried next time)" if not hit else
+                    f"{f.name} stores a value into its cache cell or into an attribute of the name object (line {hit[0].lineno}) on the path through `except {ast.unparse(h.type)}`: the miss is "
+                    "remembered, and since creating the missing module invalidates nothing, the long-lived project keeps the import unresolved while a "
+                    "freshly opened project resolves it", function=f.qualname)
+    res.floor(rule, "module lookups with a not-found handler next to a cache cell", n138, 1)
+
+
+def _cached_module_is_read_from_its_file_rule(ctx, res) -> None:
+    """R13.19: an entry of the module cache stands for the FILE: it is dropped when the observer reports the file changed, moved or removed.
+    A module built from text that did not come from the file (a placeholder for a missing file, an editor buffer) has no such
+    event coming -- when the file appears later the observer reports `created`, which the cache does not listen to.  In
+    `_ModuleCache.get_pymodule` the module that is stored under the resource is constructed from the resource alone: the
+    constructor gets no source text (no second positional argument, no `source_code=` other than None)."""
+    idx = ctx.idx
+    mc = idx.need_class("rope.base.pycore._ModuleCache")
+    gp = mc.methods.get("get_pymodule")
+    if gp is None:
+        raise AnalysisError("anchor=_ModuleCache.get_pymodule missing")
+    node = common.inlined(idx, gp)
+    stored = {x.value.id for x in walk_local(node) if isinstance(x, ast.Assign) and isinstance(x.value, ast.Name)
+              and any(isinstance(t, ast.Subscript) and is_self_attr(t.value, "module_map") for t in x.targets)}
+    n = 0
+    for x in walk_local(node):
+        if not (isinstance(x, ast.Assign) and isinstance(x.value, ast.Call) and call_name(x.value) == "PyModule"
+                and any(isinstance(t, ast.Name) and t.id in stored for t in x.targets)):
+            continue
+        n += 1
+        c = x.value
+        given = list(c.args[1:2]) + [k.value for k in c.keywords if k.arg == "source_code"]
+        bad = [g for g in given if not (isinstance(g, ast.Constant) and g.value is None)]
+        res.add("R13.19", f"_ModuleCache.get_pymodule|cached-module-is-read-from-its-file#{n}", not bad, f"{gp.unit.rel}:{c.lineno}",
+                "the module stored in the cache is built from the resource alone" if not bad else
+                f"the module stored under the resource is built from `{ast.unparse(bad[0])}`, text that does not come from the file: such an entry (an empty module for a file that is "
+                "not there yet) is dropped only by changed / moved / removed events -- when the file comes into being (a rename onto the path, undo of a rename, an external "
+                "restore) the observer reports `created`, nothing drops the entry, and the warm project answers with the empty module for good", function=gp.qualname)
+    res.floor("R13.19", "module constructions stored in the module cache", n, 1)
